@@ -716,23 +716,8 @@ pub fn stall_cases(full: bool) -> Vec<StallCase> {
 }
 
 fn canon_transcript(lines: &[String]) -> Vec<String> {
-    let mut v: Vec<String> = lines
-        .iter()
-        .map(|l| {
-            // member lists are printed in hash order
-            if l.contains(" 353 ") {
-                if let Some(pos) = l.rfind(" :") {
-                    let mut names: Vec<&str> = l[pos + 2..].split(' ').collect();
-                    names.sort();
-                    return format!("{} :{}", &l[..pos], names.join(" "));
-                }
-            }
-            // seconds since ... differ by nothing here (paused clock); keep the rest as is
-            l.clone()
-        })
-        .collect();
-    v.sort();
-    v
+    // the harness's canonical form: member lists sorted, wall-clock fields masked
+    crate::canon::canon_lines("irc.irc", lines)
 }
 
 struct StallRun {
